@@ -232,3 +232,68 @@ Definition compares_by_cap (a : node) : bool :=
   | NodeImmutable _ _ | NodeLiteral _ _ | NodeMutable _ _ | NodeUnknown _ _ _ => true
   | NodeDirectory _ _ | NodeCiphertext _ _ => false
   end.
+
+(* ------------------------------------------------ NodeMaker.create_from_cap *)
+(* _create_from_single_cap builds a node around LIT, CHK, CHK-Verifier, (RO) SSK / MDMF caps and
+   around the six directory wrappers of wrap_dirnode_cap; for anything else it returns None and
+   create_from_cap makes an UnknownNode. *)
+Definition builds_node (c : cap) : bool :=
+  match c with
+  | CFile (LIT _ | CHK _ _ _ _ _ | CHKVerifier _ _ _ _ _ | SSK _ _ | SSKRO _ _ | MDMF _ _ | MDMFRO _ _) => true
+  | CDir (SSK _ _ | SSKRO _ _ | CHK _ _ _ _ _ | LIT _ | MDMF _ _ | MDMFRO _ _) => true
+  | _ => false
+  end.
+
+Inductive made :=
+| MNode (c : cap)                 (* a file / directory node around this cap *)
+| MUnknown (u : unode_outcome)    (* UnknownNode(writecap, readcap, deep_immutable) *)
+| MRaises.                        (* uri.from_string raised *)
+
+(* bigcap = writecap or readcap *)
+Definition bigcap (rw ro : option bytes) : option bytes :=
+  match or_none rw with Some w => Some w | None => or_none ro end.
+
+(* what create_from_cap answers with an empty cache *)
+Definition create_fresh (rw ro : option bytes) (deep_immutable : bool) : made :=
+  match bigcap rw ro with
+  | None => MUnknown (unknown_node None None false)
+  | Some s =>
+    match from_string deep_immutable s with
+    | Ok c => if builds_node c then MNode c else MUnknown (unknown_node rw ro deep_immutable)
+    | _ => MRaises
+    end
+  end.
+
+(* memokey = b"I" + bigcap if deep_immutable else b"M" + bigcap  (prefixes from Gen/Uri.v) *)
+Definition memokey (deep_immutable : bool) (s : bytes) : bytes :=
+  B (if deep_immutable then nodemaker_memokey_immutable else nodemaker_memokey_mutable) ++ s.
+
+Definition node_cache := list (bytes * cap).
+
+Fixpoint cache_lookup (k : bytes) (cache : node_cache) : option cap :=
+  match cache with
+  | [] => None
+  | (k', c) :: r => if list_N_eqb k k' then Some c else cache_lookup k r
+  end.
+
+(* only mutable nodes are cached (ticket #1679); the WeakValueDictionary may forget entries at
+   any time, which only removes elements of the list *)
+Definition create_from_cap (cache : node_cache) (rw ro : option bytes) (deep_immutable : bool) : made * node_cache :=
+  match bigcap rw ro with
+  | None => (MUnknown (unknown_node None None false), cache)
+  | Some s =>
+    match cache_lookup (memokey deep_immutable s) cache with
+    | Some c => (MNode c, cache)
+    | None =>
+      let m := create_fresh rw ro deep_immutable in
+      (m, match m with
+          | MNode c => match is_mutable c with Some true => (memokey deep_immutable s, c) :: cache | _ => cache end
+          | _ => cache
+          end)
+    end
+  end.
+
+(* a cache as calls of create_from_cap leave it: every entry is what a fresh call in the
+   entry's own context would build *)
+Definition cache_ok (cache : node_cache) : Prop :=
+  Forall (fun e => exists di s, fst e = memokey di s /\ from_string di s = Ok (snd e) /\ builds_node (snd e) = true) cache.
